@@ -804,6 +804,9 @@ impl<F: Fam> Ctx<F> {
                     fail!(self, [C10], "with-capacity-postcondition", "with_capacity({}) gave capacity() = {}", cap, newmap.capacity());
                 }
                 self.replace_map(s, newmap, vh, a.allocs as i64 - a.deallocs as i64)?;
+                if cap <= 2048 {
+                    self.default_builder_constructors(cap)?;
+                }
                 if follow {
                     self.nt(C10);
                     self.follow_inserts(s, cap, "alloc-after-with-capacity")?;
@@ -811,6 +814,52 @@ impl<F: Fam> Ctx<F> {
                 self.after_op(s, &[C01, C10], true)
             }
         }
+    }
+
+    /// `new()` and `with_capacity(n)` of map and set with the default hash builder (the only
+    /// constructors that do not take a hasher): capacity, and n insertions without reallocation
+    fn default_builder_constructors(&mut self, cap: usize) -> Result<(), Fail> {
+        let prevq = panic_quiet(true);
+        let (r, a) = window(|| {
+            std::panic::catch_unwind(move || {
+                let m = griddle::HashMap::<u32, u32>::with_capacity(cap);
+                let st = griddle::HashSet::<u32>::with_capacity(cap);
+                let m0 = griddle::HashMap::<u32, u32>::new();
+                let s0 = griddle::HashSet::<u32>::new();
+                (m, st, m0, s0)
+            })
+        });
+        panic_quiet(prevq);
+        let (mut m, mut st, mut m0, mut s0) = match r {
+            Ok(x) => x,
+            Err(_) => {
+                let (msg, loc) = take_last_panic().unwrap_or_default();
+                fail!(self, [C10], "with-capacity-panicked", "with_capacity({}) / new() with the default hash builder panicked: {} at {}", cap, msg, norm_loc(&loc));
+            }
+        };
+        if m.capacity() < cap || st.capacity() < cap || m0.capacity() != 0 || s0.capacity() != 0 || a.allocs > 2 {
+            fail!(self, [C10], "with-capacity-postcondition", "default hash builder: with_capacity({}) gave capacity() = {} (map) / {} (set), new() gave {} / {}, {} allocations", cap, m.capacity(), st.capacity(), m0.capacity(), s0.capacity(), a.allocs);
+        }
+        let (c_m, c_s) = (m.capacity(), st.capacity());
+        let prevq = panic_quiet(true);
+        let (r, a) = window(|| {
+            std::panic::catch_unwind(std::panic::AssertUnwindSafe(|| {
+                for i in 0..cap as u32 {
+                    m.insert(i.wrapping_mul(2_654_435_761), i);
+                    st.insert(i.wrapping_mul(2_654_435_761));
+                }
+            }))
+        });
+        panic_quiet(prevq);
+        if r.is_err() || a.allocs != 0 || m.len() != cap || st.len() != cap || m.capacity() != c_m || st.capacity() != c_s {
+            fail!(self, [C10], "alloc-after-with-capacity", "default hash builder: {} insertions after with_capacity({}) made {} allocation(s) (panicked: {}); len {} / {}, capacity {} -> {} / {} -> {}", cap, cap, a.allocs, r.is_err(), m.len(), st.len(), c_m, m.capacity(), c_s, st.capacity());
+        }
+        m0.insert(1, 1);
+        s0.insert(1);
+        if m0.get(&1) != Some(&1) || !s0.contains(&1) || m0.len() != 1 || s0.len() != 1 {
+            fail!(self, [C10, C01], "new-unusable", "a collection made by new() does not hold what was inserted");
+        }
+        Ok(())
     }
 
     /// installs a new map in slot `s`; the previous one is dropped inside a window
